@@ -9,4 +9,4 @@ CONSTANTS
   Export = FALSE
 VIEW View
 INVARIANTS TypeOK NoStranded NoSpuriousClose NoLossNoDup PerWriterOrder Bounded
-PROPERTY HeldInConfig
+PROPERTY HeldInConfig NoOvertake
